@@ -63,6 +63,8 @@ type Fault struct {
 	Get func(p *Proxy, req *spb.GetRequest, resps []*spb.GetResponse) []*spb.GetResponse
 	// ModifyErr, when set, is the status every Modify RPC ends with at once.
 	ModifyErr error
+	// ModifyStatus may rewrite the status a Modify RPC of the reference server ends with.
+	ModifyStatus func(err error) error
 	// GetEndErr, when set, is the status every Get RPC ends with after its (possibly
 	// rewritten) responses were streamed.
 	GetEndErr error
@@ -211,6 +213,9 @@ func (p *Proxy) Modify(stream spb.GRIBI_ModifyServer) error {
 	s.mu.Unlock()
 	if rej != nil {
 		return rej
+	}
+	if err != nil && p.F != nil && p.F.ModifyStatus != nil {
+		return p.F.ModifyStatus(err)
 	}
 	return err
 }
